@@ -364,7 +364,7 @@ def configure (m : Model) (g : Graph) (top : Option Str) : Except PyErr Tree :=
         let st0 : St := { cells := [(top, [])], nm := AList.set (vars.map (·, NM.unset)) top NM.own }
         let data ← preconfigure m g.epidata g.triples []
         let (data1, st1, _) := configureNode m (data.length + 1) top data st0 false
-        let st2 ← configureLoop m (2 * data.length + 2) (stripPops data1) [] st1
+        let st2 ← configureLoop m ((data.length + 1) * (data.length + 1) + 1) (stripPops data1) [] st1
         let node ← buildNode st2.cells (2 * st2.cells.length + 2) top
         pure { node := node, metadata := g.metadata }
 
@@ -465,7 +465,7 @@ def popN : Nat → List Str → Option (List Str)
 /-- `node_contexts(g)`; the stack holds `Option Str` because `g.top` may be `None` -/
 def nodeContextsLoop (g : Graph) (vars : List Str) : List Triple → List (Option Str) → Except PyErr (List (Option Str))
   | [], _ => .ok []
-  | _ :: _, [] => .error (.other "IndexError")   -- `stack[-1]` on an empty stack
+  | _ :: rest, [] => .ok (List.replicate (rest.length + 1) none)   -- fix F19: `if not stack` → unknown from here on
   | t :: rest, top :: stack =>
     let eligible : List Str := t.src :: (if t.role ≠ CONCEPT_ROLE then (match t.tgt with | .str s => if s ∈ vars then [s] else [] | _ => []) else [])
     match top with
